@@ -65,6 +65,10 @@ def gen_vm_program(rnd, size):
                     classes.add('non-terminating-loop')
                 out += loop(tag('i'), bound, block(rnd.randint(1, 3), depth + 1, in_func, fname), tag('L'))
                 classes.add('loop')
+            elif k < 0.62 and partial[0]:
+                # a partial application created by the top-level script, called wherever this block runs (function body, included file)
+                out.append({'expr': {'name': 'r', 'expr': call_expr('pp', *[{'number': float(rnd.randint(0, 3))}][:rnd.randint(0, 1)])}})
+                classes.add('partial-call')
             elif k < 0.7 and funcs:
                 f = rnd.choice(funcs)
                 out.append({'expr': {'name': 'r', 'expr': call_expr(f, {'number': float(rnd.randint(0, 3))})}})
@@ -87,11 +91,24 @@ def gen_vm_program(rnd, size):
                     cells.insert(rnd.randint(0, len(cells)), {'number': 7.0})
                     classes.add('data-helper-fails-part-way')
                 args = [call_expr('arrayNew', *cells)]
-                helper = rnd.choice(['dataFilter', 'dataCalculatedField'])
+                helper = rnd.choice(['dataFilter', 'dataCalculatedField', 'dataJoin'])
+                fexpr = ('pp' if partial[0] and rnd.random() < 0.3 else f) + '(a)'
+                variables = rnd.choice([None, None, call_expr('objectNew', {'string': 'q'}, {'number': 1.0}), call_expr('objectNew')])
                 if helper == 'dataCalculatedField':
                     args.append({'string': 'b'})
-                args.append({'string': f + '(a)'})
-                variables = rnd.choice([None, None, call_expr('objectNew', {'string': 'q'}, {'number': 1.0}), call_expr('objectNew')])
+                if helper == 'dataJoin':
+                    # the right rows are evaluated first, then the left rows; a row that is the string 'a' makes the evaluation fail at that row
+                    rcells = [call_expr('objectNew', {'string': 'a'}, {'number': float(x)}) for x in rnd.sample([1, 2, 3, 4, 5], rnd.randint(1, 3))]
+                    if rnd.random() < 0.4:
+                        rcells.insert(rnd.randint(0, len(rcells)), {'string': 'a'})
+                        classes.add('data-helper-fails-part-way')
+                    args[0] = call_expr('arrayNew', *[c if 'number' not in c else {'string': 'a'} for c in cells])
+                    args.append(call_expr('arrayNew', *rcells))
+                    args.append({'string': fexpr})
+                    if variables is not None:
+                        args += [{'variable': 'null'}, {'variable': 'false'}]
+                else:
+                    args.append({'string': fexpr})
                 if variables is not None:
                     args.append(variables)
                     classes.add('data-helper-with-variables')
@@ -113,6 +130,7 @@ def gen_vm_program(rnd, size):
         return out
 
     funcs = []
+    partial = [False]
     root = []
     for i in range(rnd.randint(0, 3)):
         name = 'fn%d' % i
@@ -145,6 +163,9 @@ def gen_vm_program(rnd, size):
         body.append({'return': {'expr': {'binary': {'op': '-', 'left': V('a1'), 'right': {'number': 2.0}}}}})
         root.append({'function': {'name': name, 'args': ['a1', 'a2'], 'statements': body}})
         funcs.append(name)
+    if funcs and rnd.random() < 0.4:
+        root.append({'expr': {'name': 'pp', 'expr': call_expr('systemPartial', V(rnd.choice(funcs)), {'number': float(rnd.randint(0, 2))})}})
+        partial[0] = True
     root += block(rnd.randint(2, 4 + size), 0, False)
     if rnd.random() < 0.3:
         root.append({'return': {'expr': V('n')}})
@@ -185,7 +206,7 @@ def _vm_rows(vm, data, text):
     fn = vm.g.get(text[:-3])
     for row in data:
         if not isinstance(row, dict):
-            raise _HelperFails()
+            raise _HelperFails()        # (a number row or the string 'a': looking the variable a up in it fails)
         yield row, vm.call_value(fn, [row.get('a')])
 
 
@@ -198,6 +219,18 @@ def _vm_data_filter(args, vm):
         return [row for row, keep in _vm_rows(vm, args[0], args[1]) if jumpvm.interp.truthy(keep)]
     except _HelperFails:
         return None
+
+
+def _vm_data_join(args, vm):
+    """Right rows first, then left rows (the result itself is not observed by this check)."""
+    try:
+        for _ in _vm_rows(vm, args[1], args[2]):
+            pass
+        for _ in _vm_rows(vm, args[0], args[2]):
+            pass
+    except _HelperFails:
+        return None
+    return []
 
 
 def _vm_data_calculated_field(args, vm):
@@ -213,7 +246,7 @@ def run_ref_model(model, files, limit, globals0):
     logs = []
     g = copy.deepcopy(globals0)
     vm = jumpvm.JumpVM(g, logs, max_statements=limit, fetch=lambda loc: files[loc]['statements'] if loc in files else None,
-                       host={'dataFilter': _vm_data_filter, 'dataCalculatedField': _vm_data_calculated_field})
+                       host={'dataFilter': _vm_data_filter, 'dataCalculatedField': _vm_data_calculated_field, 'dataJoin': _vm_data_join})
     try:
         res = ('ok', vm.run_model(model))
     except jumpvm.VMRuntimeError as e:
